@@ -13,6 +13,7 @@ from checks import phys, c03, c18
 from refs import reference as ref
 
 ID = 'C17'
+HASHSEED_EVERY = {'quick': 50, 'thorough': 300}     # one case in so many is also run under other string-hash seeds (harness._run_hashseed_invariant)
 BUDGET = {'quick': 1000, 'thorough': 80000}
 WALL = {'quick': 150, 'thorough': 3000}
 CHUNK = 8
